@@ -888,7 +888,15 @@ def rule_points_compared_whole_(ctx: Ctx, rep: Report) -> None:
     rule_points_compared_whole(ctx, rep, "C04.points_compared_whole", ('btclib.ecc', 'btclib.psbt', 'btclib.script'), 1)
 
 
+def rule_hashable_membership_(ctx: Ctx, rep: Report) -> None:
+    """C04.hashable_membership: no prefix test hashes a slice of octets that may be a bytearray (see sigcommon.rule_hashable_membership)."""
+    from rules.sigcommon import rule_hashable_membership
+    rule_hashable_membership(ctx, rep, "C04.hashable_membership", ('btclib.to_pub_key', 'btclib.ecc', 'btclib.curves', 'btclib.script'))
+
+
 RULES = [
+    ("C04.hashable_membership", rule_hashable_membership_),
+
     ("C04.points_compared_whole", rule_points_compared_whole_),
     ("C04.unproven_octets_screened", rule_unproven_octets_screened),
     ("C04.raw_key_admission", rule_raw_key_admission),
